@@ -67,7 +67,7 @@ Fixpoint afs_mkdirs (t : afs) (pre rest : apath) : option afs :=
   end.
 Definition afs_mkdir_all (t : afs) (p : apath) : option afs := afs_mkdirs t [] p.
 
-(* createDirOrFile(apath, srcFile, truncate=true), overwrite off, PathID already mapped:
+(* createDirOrFile(path, srcFile, truncate=true), overwrite off, PathID already mapped:
    parent directories, then the directory itself or the file (O_CREATE|O_TRUNC); returns
    the new tree and the open file (nil for a directory) *)
 Definition afs_create (t : afs) (m : ameta) : option (afs * option apath) :=
@@ -104,7 +104,7 @@ Definition ANL : byte := Consts.archive_newline.          (* appended by the rea
 Definition ASPLIT : byte := Consts.archive_split_byte.    (* searched by the writer *)
 
 (* ------------------------------------------------------------------------------------ *)
-(* newArchiveReader: the size announced for the whole astream *)
+(* newArchiveReader: the size announced for the whole stream *)
 Fixpoint ar_total_size (es : list aentry) : Z :=
   match es with
   | [] => 0
@@ -114,7 +114,7 @@ Fixpoint ar_total_size (es : list aentry) : Z :=
      + (if am_dir m then 0 else am_size m) + ar_total_size r)%Z
   end.
 
-(* what a correct reader produces: header line, then the apayload *)
+(* what a correct reader produces: header line, then the payload *)
 Definition astream1 (e : aentry) : list byte := hdr (ae_meta e) ++ ANL :: apayload e.
 Definition astream (es : list aentry) : list byte := flat_map astream1 es.
 
@@ -232,7 +232,7 @@ Definition ar_reader_run (es : list aentry) (sizes : list nat) (dflt : nat) :=
 (* archiveFileWriter *)
 Record awstate := mkAW {
   aw_buf : list byte;             (* f.buf: the part of a header seen so far *)
-  aw_file : option apath;          (* f.file: the open file, by its apath *)
+  aw_file : option apath;          (* f.file: the open file, by its path *)
   aw_left : Z;                    (* f.left *)
   aw_fs : afs;
   aw_fds : nat;
@@ -242,7 +242,7 @@ Record awstate := mkAW {
 Inductive awerr := AwEHeader | AwECreate.
 Inductive awres := AwOk (n : nat) (st : awstate) | AwErr (e : awerr) (st : awstate).
 
-(* one call of Write(p).  [fixed] = the previous file is closed before the next aentry is
+(* one call of Write(p).  [fixed] = the previous file is closed before the next entry is
    created (hooks/fix_archive.diff); without it f.file is simply overwritten. *)
 Definition aw_write (fixed : bool) (st : awstate) (p : list byte) : awres :=
   match (0 <? aw_left st)%Z, aw_file st with
@@ -320,8 +320,8 @@ Definition aw_state_of (r : awall) : option awstate :=
   match r with AwDone st => Some st | AwFail _ st => Some st | AwFuel => None end.
 
 (* ------------------------------------------------------------------------------------ *)
-(* reference semantics of a list of entries on the tree: one createDirOrFile per aentry,
-   then its apayload *)
+(* reference semantics of a list of entries on the tree: one createDirOrFile per entry,
+   then its payload *)
 Definition abuild1 (t : afs) (e : aentry) : option afs :=
   match afs_create t (ae_meta e) with
   | None => None
@@ -337,8 +337,8 @@ Fixpoint abuild (t : afs) (es : list aentry) : option afs :=
 End Archive.
 
 (* ------------------------------------------------------------------------------------ *)
-(* the tree a list of entries denotes, in closed form: the root, every aentry, and every
-   ancestor directory of an aentry; nothing else *)
+(* the tree a list of entries denotes, in closed form: the root, every entry, and every
+   ancestor directory of an entry; nothing else *)
 Fixpoint apath_prefix (p q : apath) : bool :=      (* p is a prefix of q (possibly equal) *)
   match p, q with
   | [], _ => true
@@ -357,7 +357,7 @@ Definition aspec_tree (es : list aentry) (p : apath) : option anode :=
     end
   end.
 
-(* entries as a directory scan yields them: no apath twice, no aentry below a file, none is
+(* entries as a directory scan yields them: no path twice, no entry below a file, none is
    the root itself *)
 Definition awf_tree (es : list aentry) : Prop :=
   NoDup (map ae_path es) /\
